@@ -310,13 +310,25 @@ class Walker:
                             if isinstance(t, ast.Name) and (t.id in env or t.id in bind):
                                 def _refs(e, nm=t.id):
                                     return isinstance(e, ast.AST) and any(isinstance(x, ast.Name) and x.id == nm for x in ast.walk(e))
-                                if _refs(val) or any(_refs(v_) for k_, v_ in list(env.items()) + list(bind.items()) if k_ != t.id):
+                                import re as _re
+                                in_pc = [k_ for k_ in pc if isinstance(k_, str) and k_.startswith("?") and _re.search(rf"\b{_re.escape(t.id)}\b", k_)]
+                                if _refs(val) or in_pc or any(_refs(v_) for k_, v_ in list(env.items()) + list(bind.items()) if k_ != t.id):
                                     self._ver = getattr(self, "_ver", 0) + 1
                                     fresh = f"{t.id}__v{self._ver}"
                                     ren = {t.id: ast.Name(id=fresh, ctx=ast.Load())}
                                     val = subst(val, ren)
                                     env = {k_: (subst(v_, ren) if isinstance(v_, ast.AST) else v_) for k_, v_ in env.items()}
                                     bind = {k_: (subst(v_, ren) if isinstance(v_, ast.AST) else v_) for k_, v_ in bind.items()}
+                                    if in_pc:
+                                        # conditions already decided on this path were about the old value: they follow it to its new name, so that
+                                        # the same text met again (about the new value) is a new, undecided condition
+                                        pc = dict(pc)
+                                        for k_ in in_pc:
+                                            try:
+                                                nk = "?" + norm(subst(ast.parse(k_[1:], mode="eval").body, ren))
+                                            except SyntaxError:
+                                                continue
+                                            pc[nk] = pc.pop(k_)
                                     if t.id in env:
                                         env[fresh] = env.pop(t.id)
                                     else:
